@@ -44,6 +44,9 @@ var props = map[string]propCfg{
 	"C17": {Pkg: "checks/c17", Go: "go1.26", Level: "exploration", Passes: []pass{
 		{Name: "race", Race: true, Shards: 16, TimeoutS: 900},
 	}, RaceFiles: []string{`^rpc/plugins/limiter/`}},
+	"C18": {Pkg: "checks/c18", Level: "exploration", Passes: []pass{
+		{Name: "race", Race: true, Shards: 16, TimeoutS: 900},
+	}, RaceFiles: []string{`^rpc/plugins/loadbalance/`}},
 	"C14": {Pkg: "checks/c14", Level: "exploration", Passes: []pass{
 		{Name: "race", Race: true, Shards: 48, ShardsThorough: 256, TimeoutS: 900, TZ: []string{"UTC"}},
 		{Name: "plain", Shards: 48, ShardsThorough: 256, TimeoutS: 600, TZ: []string{"UTC"}},
